@@ -63,7 +63,14 @@ func suppliesAll(p *ProviderSpec) bool { return suppliesGroupsBelow(p, len(p.Pro
 // and its struct has a supplier
 func fieldProviderRegistered(p *ProviderSpec) bool {
 	return p != nil && p.Type == ProviderTypeFieldAccess && len(p.Provides) == 1 && len(p.Provides[0]) == 1 &&
-		gSupplier[p.Provides[0][0].String()] == p && gSupplier[p.StructType.String()] != nil
+		gSupplier[p.Provides[0][0].String()] == p && gSupplier[p.StructType.String()] != nil && fieldAccessorShape(p)
+}
+
+// fieldAccessorShape: a field read is synchronous, infallible and has the struct as its only input - the emitted read
+// has no wait of its own (InjectorFieldAccessStmt.Stmt), so it must be scheduled like a synchronous step of the
+// struct producer's thread (C01/C06: findOptimalPool/post.sync_prefers_fully_provided puts it there)
+func fieldAccessorShape(p *ProviderSpec) bool {
+	return !p.IsAsync && !p.IsReturnError && len(p.Requires) == 1 && p.Requires[0] == p.StructType && p.SourceField != nil
 }
 
 // C09 (refusal): a declaration NewGraph accepts has exactly one supplier per type - every function, value and bound
